@@ -977,6 +977,10 @@ func (as *AbacoSource) readerMainLoop() {
 	ticker := time.NewTicker(as.readPeriod)
 	defer ticker.Stop()
 	as.lastread = time.Now()
+	// Frames/bytes filled in for missing packets but not yet reported in a buffer
+	// (a tick can fill gaps and then have to wait for more data).
+	var droppedFrames int
+	var droppedBytes int
 
 awaitmoredata:
 	for {
@@ -993,8 +997,6 @@ awaitmoredata:
 		case <-ticker.C:
 			// read from the UDP port or ring buffer
 			var lastSampleTime time.Time
-			var droppedFrames int
-			var droppedBytes int
 			for _, pp := range as.producers {
 				allPackets, err := pp.ReadAllPackets()
 				lastSampleTime = time.Now()
@@ -1085,6 +1087,8 @@ awaitmoredata:
 				droppedBytes:   droppedBytes,
 				droppedFrames:  droppedFrames,
 			}
+			droppedFrames = 0
+			droppedBytes = 0
 			if bytesProcessed > 0 {
 				timeout.Reset(timeoutPeriod)
 			}
